@@ -448,6 +448,31 @@ def dependencies_rules(prog, an, rep):
                         src(ifs[0].left).endswith('.status') and \
                         is_const(ifs[0].comparators[0], 'MERGED'):
                     merged = v
+            # the dependencies grouped by status: G[dep.status] gets dep
+            # (setdefault(...).append or [..].append), read as G['MERGED']
+            if isinstance(a, ast.Subscript) and \
+                    is_const(a.slice, 'MERGED') and \
+                    isinstance(a.value, ast.Name):
+                g_ = a.value.id
+                fills = [x for x in walk_local(f.node, include_root=False)
+                         if isinstance(x, ast.Call) and
+                         isinstance(x.func, ast.Attribute) and
+                         x.func.attr == 'append' and len(x.args) == 1 and
+                         isinstance(x.args[0], ast.Name) and (
+                             (isinstance(x.func.value, ast.Call) and
+                              src(x.func.value.func) == g_ + '.setdefault'
+                              and x.func.value.args and
+                              src(x.func.value.args[0]) ==
+                              x.args[0].id + '.status') or
+                             (isinstance(x.func.value, ast.Subscript) and
+                              src(x.func.value.value) == g_ and
+                              src(x.func.value.slice) ==
+                              x.args[0].id + '.status'))]
+                others = [x for x in walk_local(f.node, include_root=False)
+                          if isinstance(x, ast.Name) and x.id == g_ and
+                          isinstance(x.ctx, ast.Store)]
+                if len(fills) == 1 and len(others) == 1:
+                    merged = a
         if has_after and merged is not None:
             good.append((t, isinstance(e.ops[0], ast.NotEq)))
     rep.evaluated()
